@@ -204,6 +204,18 @@ pub fn dispatch(op: &str, a: &[&str]) -> Option<Ans> {
             let kp2 = dryoc::sign::SigningKeyPair::<dryoc::sign::PublicKey, dryoc::sign::SecretKey>::from_secret_key(sk.into());
             let (mut spk, mut ssk) = ([0u8; 32], [0u8; 64]);
             unsafe { so::crypto_sign_seed_keypair(spk.as_mut_ptr(), ssk.as_mut_ptr(), seed.as_ptr()) };
+            // from_secret_key derives the public key from the SEED half, whatever the trailing 32 bytes say
+            for tail in [[0u8; 32], [0xA5u8; 32]] {
+                let mut bad = sk;
+                bad[32..].copy_from_slice(&tail);
+                let kp3 = dryoc::sign::SigningKeyPair::<dryoc::sign::PublicKey, dryoc::sign::SecretKey>::from_secret_key(bad.into());
+                if kp3.public_key.as_slice() != pk {
+                    return Some(("mismatch SigningKeyPair::from_secret_key public key is not the seed's".into(), format!("ok {} {}", hex(&spk), hex(&ssk))));
+                }
+                // a signature made with that key pair verifies under the seed's public key
+                let smsg = kp3.sign_with_defaults(b"from_secret_key".to_vec());
+                match smsg { Ok(m3) => if m3.verify(&dryoc::sign::PublicKey::from(pk)).is_err() { return Some(("mismatch signature by from_secret_key pair does not verify".into(), "n/a".into())); }, Err(_) => return Some(("mismatch sign failed".into(), "n/a".into())) }
+            }
             let mut inplace_bad = false;
             for (pk0, sk0) in [([0xA5u8; 32], [0xA5u8; 64]), ([0xA5u8; 32], sk), (pk, [0x5Au8; 64]), (pk, sk)] {
                 let (mut p2, mut s2) = (pk0, sk0);
@@ -342,6 +354,23 @@ pub fn dispatch(op: &str, a: &[&str]) -> Option<Ans> {
             let mut out = vec![0u8; sm.len().saturating_sub(64)];
             let r = crypto_sign_open(&mut out, sm, &pk);
             let r3 = dryoc::sign::VecSignedMessage::from_bytes(sm).and_then(|s| s.verify(&pk));
+            // the same bytes through the all-Vec container form (Vec<u8> signature): parse, re-serialise, verify
+            let r4 = dryoc::sign::SignedMessage::<Vec<u8>, Vec<u8>>::from_bytes(sm);
+            let r4 = match r4 {
+                Ok(sv) => {
+                    if sm.len() < 64 { return Some(("mismatch SignedMessage<Vec,Vec>::from_bytes accepted fewer than 64 bytes".into(), "err".into())); }
+                    if sv.to_vec() != *sm { return Some(("mismatch SignedMessage<Vec,Vec> to_vec != input".into(), "n/a".into())); }
+                    sv.verify(&pk)
+                }
+                Err(e) => Err(e),
+            };
+            if r4.is_ok() != r3.is_ok() { return Some(("mismatch SignedMessage<Vec,Vec> verify".into(), "n/a".into())); }
+            #[cfg(feature = "nightly")]
+            {
+                use dryoc::protected::*;
+                let r5 = dryoc::sign::SignedMessage::<HeapByteArray<64>, HeapBytes>::from_bytes(sm).and_then(|s| s.verify(&pk));
+                if r5.is_ok() != r3.is_ok() { return Some(("mismatch SignedMessage<Heap,Heap> verify".into(), "n/a".into())); }
+            }
             let mut sout = vec![0u8; sm.len().saturating_sub(64)];
             let mut mlen = 0u64;
             let sr = if sm.len() < 64 { -1 } else { unsafe { so::crypto_sign_open(sout.as_mut_ptr(), &mut mlen, sm.as_ptr(), sm.len() as u64, pk.as_ptr()) } };
